@@ -83,6 +83,12 @@ CHECKS["C14"] = dict(
    text="All call histories of length 5 (quick: 151 330) / 6 (thorough) over both peers x {createOffer, createAnswer, setLocal(own offer), setLocal(own answer), implicit setLocal, setRemote(peer's offer), setRemote(peer's answer), setRemote(answer with a dropped / re-typed m-section), setRemote(description without ice-ufrag / rtcp-mux, answer with actpass), close} are replayed on real peer connections (virtual loop, fake ICE); after every call the outcome class, signalingState and, for failed calls, unchanged signalingState/localDescription/remoteDescription and the absence of events are compared with the JSEP table; closed is absorbing.",
    note="aioice replaced by a fake connection; createOffer while a remote offer is pending left unconstrained; artefacts of an earlier round may be accepted or rejected with ValueError; events of successful calls are not constrained.",
    design="2/C14")
+CHECKS["C03"] = dict(
+   level="model_checking",
+   technique="bounded-exhaustive enumeration of the configuration product; every configuration negotiated and connected between two real RTCPeerConnections on a virtual-time loop (fake ICE, real SDP/DTLS/SCTP), with follow-up negotiation rounds",
+   text="The complete product {offerer media item (kind x direction x addTrack/addTransceiver x codec preferences) | none (thorough: two items)} x data channel x bundle policy x answerer pre-created transceivers {none, audio, video, both} x with/without track x data channel x bundle policy (4 842 quick / 120 078 thorough configurations) plus four follow-up rounds (add the other kind, add a transceiver of the same kind, add a data channel, swap the offering side) is pushed through the real offer/answer code; oracle: no call raises, both stable, answer mirrors the offer's sections/BUNDLE/codecs/payload types/RTX pairing/rtcp-fb/header-extension ids, definite DTLS role, complementary directions, and the session connects: both connected, negotiated channels open, a message per channel delivered.",
+   note="aioice replaced by a fake connection that pairs like ICE; tracks never yield media; one open known finding (idle un-negotiated transport keeps connectionState at 'connecting').",
+   design="2/C03")
 NOT_YET = {}
 
 def main():
